@@ -283,7 +283,8 @@ func (s *session) do(st gstep) stepResult {
 	case "ev":
 		s.tok++
 		r.Tok = fmt.Sprintf("%s%d", st.ID, s.tok)
-		proc(&eventlogger.Event{Type: "gated", Payload: &gp{ID: st.ID, Flush: st.Flush, Tok: r.Tok, Arr: rt.Tick(), env: e}})
+		// creation stamps are the producers' business: they neither increase with arrival nor differ between events
+		proc(&eventlogger.Event{Type: "gated", CreatedAt: time.Unix(1_700_000_000+int64(rt.Mix(uint64(s.tok), 7)%5)*100, 0), Payload: &gp{ID: st.ID, Flush: st.Flush, Tok: r.Tok, Arr: rt.Tick(), env: e}})
 	case "emptyid":
 		s.tok++
 		r.Tok = fmt.Sprintf("empty%d", s.tok)
